@@ -48,7 +48,11 @@ COMPONENTS = {"real": ["wormhole._hints", "wormhole.transit", "wormhole."
 
 
 def configs(tier):
-    return [{"half": "transit"}, {"half": "dilation"}]
+    # the third: the dilation half on a mailbox server that does not keep
+    # the order of the stored messages (hint lists overtake each other and
+    # the 'please' message)
+    return [{"half": "transit"}, {"half": "dilation"},
+            {"half": "dilation", "reorder_heavy": True}]
 
 
 def run_transit(seed, tape, opts):
